@@ -320,6 +320,20 @@ func c13Exec(t *testing.T, p *Plan) (r *c13Result) {
 			h := ld.Branches[lbranch].Root(lsize)
 			text := CheckpointText(ld.Origin, lsize, h[:])
 			r.fetched = MakeNote(text, w.Stranger.SignEd25519(text))
+		case "misframed":
+			// the log's genuine signed checkpoint, served with bytes around it that the note format does not allow: as a whole
+			// these bytes are not a signed note, whatever a tidied-up copy of them would be
+			b := mk(lbranch, lsize)
+			switch ex["frame"] {
+			case 0:
+				r.fetched = append(b, '\n')
+			case 1:
+				r.fetched = append(b, '\n', '\n')
+			case 2:
+				r.fetched = b[:len(b)-1]
+			default:
+				r.fetched = append(b[:len(b)-1], ' ', '\n')
+			}
 		case "wrongorigin":
 			h := ld.Branches[lbranch].Root(lsize)
 			text := CheckpointText(ld.Origin+"/x", lsize, h[:])
@@ -714,7 +728,7 @@ func init() {
 	register(&Scenario{
 		Prop:  "C13",
 		Level: "fault_enumeration",
-		Rule:  "feeder.FeedOnce on the fake clock against a recording witness (scripted stub, or the real witness through the real witnessAdapter, optionally with a competing writer moving it between the feeder's read and its update) and a harness log party (honest or forked, first use, equality, witness ahead, unverifiable or unfetchable checkpoint); per seeded shape EVERY distribution of 0..4 transient failures over get-latest / fetch-proof / update (121 patterns) is executed, plus context cancellation at every call and during every backoff sleep; oracle on the recorded calls per attempt (old size, proof pair, proof passed on unchanged, nothing when ahead, only verifiable checkpoints), on the result (success on the attempt after the last failure, returns the witness's bytes, real witness holds them) and on cancellation (no new attempt). evaluations = executions; non-trivial = at least one injected failure or cancellation fired; distinct = distinct (shape, pattern or cancel point, call string) tuples",
+		Rule:  "feeder.FeedOnce on the fake clock against a recording witness (scripted stub, or the real witness through the real witnessAdapter, optionally with a competing writer moving it between the feeder's read and its update) and a harness log party (honest or forked, first use, equality, witness ahead, unverifiable, misframed - genuine but with a surplus or missing final newline - or unfetchable checkpoint); per seeded shape EVERY distribution of 0..4 transient failures over get-latest / fetch-proof / update (121 patterns) is executed, plus context cancellation at every call and during every backoff sleep; oracle on the recorded calls per attempt (old size, proof pair, proof passed on unchanged, nothing when ahead, only verifiable checkpoints), on the result (success on the attempt after the last failure, returns the witness's bytes, real witness holds them) and on cancellation (no new attempt). evaluations = executions; non-trivial = at least one injected failure or cancellation fired; distinct = distinct (shape, pattern or cancel point, call string) tuples",
 		Gen: func(r *Rng, tier string, n uint64) *Plan {
 			p := &Plan{Scenario: "feed"}
 			p.Cfg = Config{Store: "mem", Dense: 1024, WitKeys: []string{"ed:0", "cosig:0"},
@@ -738,7 +752,8 @@ func init() {
 				ex["lsize"] = ex["wsize"] + int64(r.Range(0, 40))
 				ex["lbranch"] = 1
 			case 5:
-				notes["cp"] = "badsig"
+				notes["cp"] = Pick(r, "badsig", "misframed")
+				ex["frame"] = int64(r.IntN(4))
 				ex["wsize"], ex["lsize"] = int64(r.Range(1, 20)), int64(r.Range(21, 40))
 			case 6:
 				notes["cp"] = "wrongorigin"
